@@ -112,11 +112,29 @@ def access_v(tsv):
                 locks.append('("%s", %s)' % (name, "MX" if mode == "x" else "MS"))
         short = fn.split("internal.")[-1].replace('"', "")
         rows.append('  mkA "%s" %s [%s] "%s %s"' % (f, kinds[k], "; ".join(locks), pos, short))
+    bl = []
+    for l in tsv.splitlines():
+        if not l.startswith("#blocksite\t"):
+            continue
+        parts = l.split("\t")
+        if len(parts) != 5:
+            continue
+        _, what, ls, fn, pos = parts
+        locks = []
+        for x in ls.split(","):
+            if x:
+                name, mode = x.rsplit(":", 1)
+                locks.append('("%s", %s)' % (name, "MX" if mode == "x" else "MS"))
+        short = fn.split("internal.")[-1].replace('"', "")
+        bl.append('  ("%s", [%s], "%s %s")' % (what.replace('"', ""), "; ".join(locks), pos, short))
+    blocking = ("\n(* every point at which a goroutine can park on a channel send (a send, a select without default that sends, a call of a\n"
+                "   function that contains one, transitively), with the locks certainly held there *)\n"
+                "Definition blocking_sites : list (string * list (string * lmode) * string) :=\n[\n" + ";\n".join(bl) + "\n].\n")
     return ("(* Gen/Access.v - generated by go/lockscrape from /repo on every run; do not edit.\n"
             "   One row per struct-field access of package internal reachable from the public API:\n"
             "   field, kind, locks certainly held (must-lockset), site. *)\n"
             "From Coq Require Import String List.\nFrom Verif Require Import Model.Lockset.\nImport ListNotations.\nOpen Scope string_scope.\n\n"
-            "Definition accesses : list access :=\n[\n" + ";\n".join(rows) + "\n].\n")
+            "Definition accesses : list access :=\n[\n" + ";\n".join(rows) + "\n].\n" + blocking)
 
 
 # ---------------------------------------------------------------- coq
